@@ -42,10 +42,16 @@ def status_key(w, state):
 
 def find_history(model, q, max_states=20000):
     src = scen.ConcSource(model)
-    shape = Shape.from_json(q['shape'])
-    sens = [tuple(a) for a in q['sens']] if q.get('sens') else None
-    w = scen.build_world(src, shape, sens=sens, host_fw=q.get('host_fw', True),
-                         host_order=q.get('host_order'))
+    if q.get('loaded'):
+        from . import loaderh, loaded
+        doc, exp = loaderh.skeleton(src, q)
+        sc = loaderh.load(src, doc)
+        w = loaded.world_from_document(src, exp, sc)
+    else:
+        shape = Shape.from_json(q['shape'])
+        sens = [tuple(a) for a in q['sens']] if q.get('sens') else None
+        w = scen.build_world(src, shape, sens=sens, host_fw=q.get('host_fw', True),
+                             host_order=q.get('host_order'))
     net = m_net.Network(w.scenario)
     init = m_state.State.generate_initial_state(net)
     goal_state = init.copy()
